@@ -115,6 +115,15 @@ func vC11Cmp[T vScalar]() {
 		vAssert(rd == dSame, "returns-destination")
 	}
 	n := len(aw)
+	// known finding (C16, thorough tier): comparing two column-major tensors into a fresh or reuse destination fills a
+	// row-major result in the operands' storage order (unsafe mode, which writes into the operand, is correct)
+	nonUnit := 0
+	for _, dsz := range shape {
+		if dsz > 1 {
+			nonUnit++
+		}
+	}
+	kfCmpF := form == "TT" && vCfgStr("la") == "F" && vCfgStr("lb") == "F" && variant != "unsafe" && nonUnit >= 2
 	if sameOut {
 		vAssert(rd.Dtype() == a.Dtype(), "result-dtype-same")
 		if rd.Dtype() != a.Dtype() {
@@ -125,7 +134,7 @@ func vC11Cmp[T vScalar]() {
 		kf1 := variant == "unsafe" && form == "ST" && n == 1
 		for k := 0; k < n; k++ {
 			x, y := xy(k)
-			vAssertKF(vSameBits(got[k], vOneZero[T](vCmpTruth(op, x, y))), "truth-same-type", "KF-C07-unsafe-cmp1", kf1)
+			vAssertKF2(vSameBits(got[k], vOneZero[T](vCmpTruth(op, x, y))), "truth-same-type", "KF-C07-unsafe-cmp1", kf1, "KF-C16-cmp-colmajor", kfCmpF)
 		}
 	} else {
 		vAssert(rd.Dtype() == Bool, "result-dtype-bool")
@@ -135,7 +144,7 @@ func vC11Cmp[T vScalar]() {
 		got := vSnapshot[bool](rd)
 		for k := 0; k < n; k++ {
 			x, y := xy(k)
-			vAssert(got[k] == vCmpTruth(op, x, y), "truth")
+			vAssertKF(got[k] == vCmpTruth(op, x, y), "truth", "KF-C16-cmp-colmajor", kfCmpF)
 		}
 	}
 	if rd != a {
